@@ -128,6 +128,19 @@ func (c *client) SendRPC(rpc hrpc.Call) (msg proto.Message, err error) {
 			serverErrorCount++
 			continue // retry
 		case region.NotServingRegionError:
+			// The region gets re-established before the next attempt, which
+			// usually is all the pacing needed. But a region that answers
+			// the probe and keeps refusing the request (e.g. a region
+			// server whose WAL is closed) must not be hammered: like
+			// ServerError, retry twice immediately and then back off.
+			if serverErrorCount > 1 {
+				sp.AddEvent("retrySleep")
+				backoff, err = sleepAndIncreaseBackoff(ctx, backoff)
+				if err != nil {
+					return msg, err
+				}
+			}
+			serverErrorCount++
 			continue // retry
 		}
 		return msg, err
